@@ -213,11 +213,27 @@ func (e *Engine) parseContractFile(file, pkgPath, data string) error {
 			cur.Terminates = true
 		case "witness":
 			// witness <obligation-suffix> "<source>"
+			// optional:  expect "<substring of the output>"   args "<extra command line>"
 			parts := strings.SplitN(rest, " ", 2)
 			if len(parts) == 2 {
-				s, err := strconv.Unquote(strings.TrimSpace(parts[1]))
-				if err == nil {
+				body := strings.TrimSpace(parts[1])
+				if q, err := strconv.QuotedPrefix(body); err == nil {
+					s, _ := strconv.Unquote(q)
 					cur.Witness[parts[0]] = s
+					tail := strings.TrimSpace(body[len(q):])
+					for tail != "" {
+						f := strings.SplitN(tail, " ", 2)
+						if len(f) < 2 {
+							break
+						}
+						q2, err := strconv.QuotedPrefix(strings.TrimSpace(f[1]))
+						if err != nil {
+							break
+						}
+						v, _ := strconv.Unquote(q2)
+						cur.Witness[parts[0]+"|"+f[0]] = v
+						tail = strings.TrimSpace(strings.TrimSpace(f[1])[len(q2):])
+					}
 				}
 			}
 		case "end":
@@ -740,11 +756,20 @@ func (env *SpecEnv) call(x *ast.CallExpr) Val {
 		v := env.rv(env.eval(x.Args[0]))
 		return Val{t: app("s_cap", v.t), typ: intT}
 	case "forall", "exists":
+		// forall(i, body)  or  forall(k, "go type", body)
 		id := x.Args[0].(*ast.Ident).Name
 		bv := "?" + id
-		inner := env.bind(id, Val{t: bv, typ: intT})
+		var bt types.Type = intT
+		if len(x.Args) == 3 {
+			ts, _ := strconv.Unquote(x.Args[1].(*ast.BasicLit).Value)
+			bt = vc.eng.typeByString(ts)
+			if bt == nil {
+				specErr("unknown type %q", ts)
+			}
+		}
+		inner := env.bind(id, Val{t: bv, typ: bt})
 		body := inner.evalBool(x.Args[len(x.Args)-1])
-		return Val{t: fmt.Sprintf("(%s ((%s Int)) %s)", name, bv, body), typ: boolT}
+		return Val{t: fmt.Sprintf("(%s ((%s %s)) %s)", name, bv, vc.te.sortOf(bt), body), typ: boolT}
 	case "has": // has(m, k): key present in map
 		m := env.rv(env.eval(x.Args[0]))
 		k := env.rv(env.eval(x.Args[1]))
@@ -769,10 +794,21 @@ func (env *SpecEnv) call(x *ast.CallExpr) Val {
 			return Val{t: eq(app("s_arr", v.t), "0"), typ: boolT}
 		}
 		return Val{t: eq(v.t, "0"), typ: boolT}
+	case "unbox": // unbox(x, "go type"): payload of an interface value as that type
+		v := env.rv(env.eval(x.Args[0]))
+		ts, _ := strconv.Unquote(x.Args[1].(*ast.BasicLit).Value)
+		t := vc.eng.typeByString(ts)
+		if t == nil {
+			specErr("unknown type %q", ts)
+		}
+		return Val{t: vc.te.unbox(t, app("i_val", v.t)), typ: t}
+	case "unboxint": // integer payload of an interface value
+		v := env.rv(env.eval(x.Args[0]))
+		return Val{t: app("i_val", v.t), typ: intT}
 	case "int", "rune", "int64":
 		return env.rv(env.eval(x.Args[0]))
 	}
-	if sf, ok := vc.eng.specFuncs[name]; ok && pkg == env.pkg || ok && sf.Pkg == pkg {
+	if sf, ok := vc.eng.specFuncs[name]; ok {
 		if env.depth > 20 {
 			specErr("spec function recursion in %s", name)
 		}
